@@ -146,11 +146,11 @@ def decode_time(seconds_since_midnight: int | float | None) -> time | None:
 
     return time(hour=hours, minute=minutes, second=seconds)
 
-def encode_time(time: time | None, bit_length: int, signed: bool = False) -> int:
+def encode_time(time: time | None, bit_length: int, signed: bool = False, resolution: float = 1) -> int:
     """
-    Encodes a time object into an integer representing the number of seconds since midnight.
+    Encodes a time object into an integer representing the time since midnight in units of `resolution` seconds.
     Returns:
-        int: The number of seconds since midnight.
+        int: The number of resolution steps since midnight (seconds when resolution is 1).
     """
     if time is None:
         # Set to "not available" value (highest positive value: signed fields keep the sign bit clear)
@@ -161,7 +161,7 @@ def encode_time(time: time | None, bit_length: int, signed: bool = False) -> int
     # Calculate the number of seconds since midnight
     seconds_since_midnight = time.hour * 3600 + time.minute * 60 + time.second
 
-    return seconds_since_midnight
+    return int(round(seconds_since_midnight / resolution))
 
 
 
